@@ -1302,6 +1302,294 @@ func vfbBoundaryMutations(r *vfRand, pb *kproto.Block) []vfbMutation {
 	return out
 }
 
+
+// ---------------------------------------------------------------------------------------------
+// (8) differential with the Lean model of the header / commit-signature wire encoding
+// (KV/Model/HeaderWire.lean, driver model `partset`): the bytes Header.Hash() and Commit.Hash()
+// hash, bit-exact, and the hashes themselves (Keccak-256 / SHA-256 Merkle computed in Lean).
+
+const vfbWireModel = "partset"
+
+func vfbHeaderOp(height uint64, t time.Time, numTxs, gas uint64, lbh []byte, lbt uint32, lbp, prop, lch, tx, vh, nvh, ch, app, ev []byte) string {
+	return fmt.Sprintf("headerbytes height=%d secs=%d nanos=%d numtxs=%d gas=%d lbh=%s lbt=%d lbp=%s prop=%s lch=%s tx=%s vh=%s nvh=%s ch=%s app=%s ev=%s",
+		height, t.Unix(), t.Nanosecond(), numTxs, gas, vfHex(lbh), lbt, vfHex(lbp), vfHex(prop), vfHex(lch), vfHex(tx), vfHex(vh), vfHex(nvh), vfHex(ch), vfHex(app), vfHex(ev))
+}
+
+func vfbTypesHeaderOp(h *types.Header) string {
+	return vfbHeaderOp(h.Height, h.Time, h.NumTxs, h.GasLimit, h.LastBlockID.Hash.Bytes(), h.LastBlockID.PartsHeader.Total,
+		h.LastBlockID.PartsHeader.Hash.Bytes(), h.ProposerAddress.Bytes(), h.LastCommitHash.Bytes(), h.TxHash.Bytes(),
+		h.ValidatorsHash.Bytes(), h.NextValidatorsHash.Bytes(), h.ConsensusHash.Bytes(), h.AppHash.Bytes(), h.EvidenceHash.Bytes())
+}
+
+// vfbHeaderReal: what Header.Hash() hashes and returns ("panic" when Marshal fails).
+func vfbHeaderReal(h *types.Header) (res string) {
+	defer func() {
+		if e := recover(); e != nil {
+			res = "panic"
+		}
+	}()
+	hash := h.Hash()
+	bz, err := h.ToProto().Marshal()
+	if err != nil {
+		return "marshal-error-but-hash-ok"
+	}
+	return vfHex(bz) + " " + vfHex(hash.Bytes())
+}
+
+func vfbExtremeU64(r *vfRand) uint64 {
+	switch r.Intn(8) {
+	case 0:
+		return 0
+	case 1:
+		return uint64(r.Pick(1, 127, 128, 255, 256, 16383, 16384))
+	case 2:
+		return ^uint64(0)
+	case 3:
+		return uint64(1) << uint(r.Intn(64))
+	case 4:
+		return (uint64(1) << uint(r.Intn(64))) - 1
+	default:
+		return r.U64() >> uint(r.Intn(64))
+	}
+}
+
+func vfbExtremeTime(r *vfRand) time.Time {
+	switch r.Intn(12) {
+	case 0:
+		return time.Time{} // year 1: the smallest valid protobuf timestamp
+	case 1:
+		return time.Unix(0, 0).UTC()
+	case 2:
+		return time.Unix(-1, 999999999).UTC()
+	case 3:
+		return time.Unix(253402300799, 999999999).UTC() // the largest valid one
+	case 4:
+		return time.Unix(253402300800, 0).UTC() // year 10000: Marshal fails
+	case 5:
+		return time.Unix(-62135596801, 0).UTC() // year 0: Marshal fails
+	case 6:
+		return time.Unix(int64(r.U64()>>uint(1+r.Intn(40))), int64(r.Intn(1000000000))).In(time.FixedZone("x", 3600*(r.Intn(24)-12)))
+	case 7:
+		return time.Unix(-int64(r.U64()>>uint(30+r.Intn(30))), int64(r.Intn(1000000000))).UTC()
+	case 8:
+		return time.Unix(int64(1600000000+r.Intn(100000000)), int64(r.Intn(1000000000))).Local() // the local zone
+	default:
+		return vfbTime(r)
+	}
+}
+
+func vfbMaybeHash(r *vfRand) common.Hash {
+	switch r.Intn(5) {
+	case 0:
+		return common.Hash{}
+	case 1:
+		var h common.Hash
+		h[31] = byte(1 + r.Intn(255))
+		return h
+	case 2:
+		var h common.Hash
+		h[0] = byte(1 + r.Intn(255))
+		return h
+	default:
+		return vfbRandHash(r)
+	}
+}
+
+func vfbRawBytes(r *vfRand, n int) []byte {
+	switch r.Intn(6) {
+	case 0:
+		return nil
+	case 1:
+		return []byte{}
+	case 2:
+		return r.Bytes(r.Pick(1, 2, 31, 33, 127, 128, 200))
+	default:
+		return r.Bytes(n)
+	}
+}
+
+func vfbSigOpTok(flag uint64, addr []byte, t time.Time, sig []byte) string {
+	return fmt.Sprintf("%d:%s:%d:%d:%s", flag, vfHex(addr), t.Unix(), t.Nanosecond(), vfHex(sig))
+}
+
+func vfbWireModelOps(o *vfOut, r *vfRand, block *types.Block, commit *types.Commit) {
+	// the block's own header
+	h := block.Header()
+	o.Op(vfbWireModel, vfbTypesHeaderOp(h), vfbHeaderReal(h))
+	o.Stat("wire:header:block")
+	// headers with zero / extreme / random fields
+	for k := 0; k < 3; k++ {
+		x := &types.Header{
+			Height: vfbExtremeU64(r), Time: vfbExtremeTime(r), NumTxs: vfbExtremeU64(r), GasLimit: vfbExtremeU64(r),
+			LastBlockID:        types.BlockID{Hash: vfbMaybeHash(r), PartsHeader: types.PartSetHeader{Total: uint32(vfbExtremeU64(r)), Hash: vfbMaybeHash(r)}},
+			LastCommitHash:     vfbMaybeHash(r),
+			TxHash:             vfbMaybeHash(r),
+			ValidatorsHash:     vfbMaybeHash(r),
+			NextValidatorsHash: vfbMaybeHash(r),
+			ConsensusHash:      vfbMaybeHash(r),
+			AppHash:            vfbMaybeHash(r),
+			EvidenceHash:       vfbMaybeHash(r),
+		}
+		if r.Chance(70) {
+			x.ProposerAddress = common.BytesToAddress(r.Bytes(20))
+		}
+		if r.Chance(10) {
+			x = &types.Header{} // the zero header
+		}
+		real := vfbHeaderReal(x)
+		o.Op(vfbWireModel, vfbTypesHeaderOp(x), real)
+		if real == "panic" {
+			o.Stat("wire:header:random:panic")
+		} else {
+			o.Stat("wire:header:random")
+		}
+	}
+	// the protobuf struct directly, with byte fields of any length (nil, empty, short, long)
+	for k := 0; k < 2; k++ {
+		ph := kproto.Header{
+			Height: vfbExtremeU64(r), Time: vfbExtremeTime(r), NumTxs: vfbExtremeU64(r), GasLimit: vfbExtremeU64(r),
+			LastBlockId: kproto.BlockID{Hash: vfbRawBytes(r, 32), PartSetHeader: kproto.PartSetHeader{Total: uint32(vfbExtremeU64(r)), Hash: vfbRawBytes(r, 32)}},
+			LastCommitHash: vfbRawBytes(r, 32), DataHash: vfbRawBytes(r, 32), ValidatorsHash: vfbRawBytes(r, 32),
+			NextValidatorsHash: vfbRawBytes(r, 32), ConsensusHash: vfbRawBytes(r, 32), AppHash: vfbRawBytes(r, 32),
+			EvidenceHash: vfbRawBytes(r, 32), ProposerAddress: vfbRawBytes(r, 20),
+		}
+		real := "panic"
+		if bz, err := ph.Marshal(); err == nil {
+			real = vfHex(bz) + " " + vfHex(crypto.Keccak256(bz))
+			o.Stat("wire:header:raw")
+		} else {
+			o.Stat("wire:header:raw:panic")
+		}
+		o.Op(vfbWireModel, vfbHeaderOp(ph.Height, ph.Time, ph.NumTxs, ph.GasLimit, ph.LastBlockId.Hash, ph.LastBlockId.PartSetHeader.Total,
+			ph.LastBlockId.PartSetHeader.Hash, ph.ProposerAddress, ph.LastCommitHash, ph.DataHash, ph.ValidatorsHash, ph.NextValidatorsHash,
+			ph.ConsensusHash, ph.AppHash, ph.EvidenceHash), real)
+	}
+	// the commit: every signature's wire bytes and Commit.Hash (a fresh object: the hash is cached)
+	if commit != nil {
+		toks := ""
+		for i := range commit.Signatures {
+			cs := commit.Signatures[i]
+			toks += " " + vfbSigOpTok(uint64(cs.BlockIDFlag), cs.ValidatorAddress.Bytes(), cs.Timestamp, cs.Signature)
+			if i < 3 {
+				real := "panic"
+				if bz, err := cs.ToProto().Marshal(); err == nil {
+					real = vfHex(bz)
+				}
+				o.Op(vfbWireModel, fmt.Sprintf("sigbytes flag=%d addr=%s secs=%d nanos=%d sig=%s", uint64(cs.BlockIDFlag), vfHex(cs.ValidatorAddress.Bytes()),
+					cs.Timestamp.Unix(), cs.Timestamp.Nanosecond(), vfHex(cs.Signature)), real)
+			}
+		}
+		fresh := types.NewCommit(commit.Height, commit.Round, commit.BlockID, append([]types.CommitSig{}, commit.Signatures...))
+		o.Op(vfbWireModel, "commithash"+toks, vfHex(fresh.Hash().Bytes()))
+		o.Stat("wire:commithash")
+	}
+	// random signature lists (absent entries, zero/extreme times, odd signature lengths)
+	{
+		n := r.Pick(0, 1, 2, 3, 4, 5, 9)
+		sigs := make([]types.CommitSig, n)
+		toks := ""
+		for i := range sigs {
+			switch r.Intn(4) {
+			case 0:
+				sigs[i] = types.NewCommitSigAbsent()
+			default:
+				sigs[i] = types.CommitSig{BlockIDFlag: types.BlockIDFlag(r.Pick(0, 1, 2, 3, 3, 200)), Timestamp: vfbExtremeTime(r), Signature: vfbRawBytes(r, 65)}
+				if r.Chance(80) {
+					sigs[i].ValidatorAddress = common.BytesToAddress(r.Bytes(20))
+				}
+			}
+			cs := sigs[i]
+			toks += " " + vfbSigOpTok(uint64(cs.BlockIDFlag), cs.ValidatorAddress.Bytes(), cs.Timestamp, cs.Signature)
+		}
+		real := "panic"
+		func() {
+			defer func() { _ = recover() }()
+			real = vfHex(types.NewCommit(1, 0, types.BlockID{}, sigs).Hash().Bytes())
+		}()
+		o.Op(vfbWireModel, "commithash"+toks, real)
+		if real == "panic" {
+			o.Stat("wire:commithash:random:panic")
+		} else {
+			o.Stat("wire:commithash:random")
+		}
+	}
+}
+
+
+// ---------------------------------------------------------------------------------------------
+// (9) "two different blocks acceptable at a height never share an id" read the other way round:
+// the id (block hash, part-set header) must be a function of the block. The part-set header is
+// computed by the proposer over the bytes IT chose; a receiver decodes them (unknown fields and
+// the header's unused chain_id field are dropped silently) and consensus votes for
+// (block.Hash(), header of the RECEIVED parts), while block sync (blockchain/processor.go)
+// recomputes the parts from its own canonical re-encoding and verifies the next block's LastCommit
+// against (hash, recomputed header). For a non-canonical encoding of a valid block the two ids
+// differ: the committed block can never be block-synced.
+func vfbEncodingMalleability(rep *vfbReporter, r *vfRand, desc, chainID string, block *types.Block, bzOrig []byte,
+	state LatestBlockState, vals *types.ValidatorSet, keys vfbKeyMap, evpool EvidencePool, store Store) {
+	o := rep.o
+	variant := r.Pick(0, 1, 2)
+	name := ""
+	var bz2 []byte
+	switch variant {
+	case 0: // the header's chain_id wire field (types.Header has no such field)
+		pb := new(kproto.Block)
+		if pb.Unmarshal(bzOrig) != nil {
+			return
+		}
+		pb.Header.ChainID = "x"
+		bz2, _ = pb.Marshal()
+		name = "header.chain_id"
+	case 1: // an unknown field appended to the Block message (field 15, varint 1)
+		bz2 = append(append([]byte{}, bzOrig...), 0x78, 0x01)
+		name = "block.unknown-field"
+	default: // a non-minimal varint: trailing unknown field 15 written as 0x81 0x00 (= 1)
+		bz2 = append(append([]byte{}, bzOrig...), 0x78, 0x81, 0x00)
+		name = "block.non-minimal-varint"
+	}
+	wire := new(kproto.Block)
+	if err := wire.Unmarshal(bz2); err != nil {
+		o.Stat("malleable:" + name + ":wire-rejected")
+		return
+	}
+	b2, err := types.BlockFromProto(wire, trie.NewStackTrie(nil))
+	if err != nil {
+		o.Stat("malleable:" + name + ":decode-rejected")
+		return
+	}
+	if b2.Hash() != block.Hash() || vfbDiffBlock(block, b2) != "" {
+		o.Stat("malleable:" + name + ":different-block")
+		return
+	}
+	if validateBlock(evpool, store, state, b2) != nil {
+		o.Stat("malleable:" + name + ":state-rejected")
+		return
+	}
+	// what consensus votes for vs. what block sync recomputes
+	idWire := types.BlockID{Hash: b2.Hash(), PartsHeader: types.NewPartSetFromData(bz2, types.BlockPartSizeBytes).Header()}
+	idRe := types.BlockID{Hash: b2.Hash(), PartsHeader: b2.MakePartSet(types.BlockPartSizeBytes).Header()}
+	if idWire.Equal(idRe) {
+		o.Stat("malleable:" + name + ":same-id")
+		return
+	}
+	o.Stat("malleable:" + name + ":id-differs")
+	// the commit the validators would produce for the proposal, checked the way block sync does
+	keyMap := vfbKeyMap{}
+	for a, k := range keys {
+		keyMap[a] = k
+	}
+	commit, _ := vfbMakeCommit(r, chainID, block.Height(), 0, idWire, vals, keyMap, block.Time())
+	errWire := vals.VerifyCommit(chainID, idWire, block.Height(), commit)
+	errSync := vals.VerifyCommit(chainID, idRe, block.Height(), commit)
+	if errWire == nil && errSync != nil {
+		rep.viol(1, "block-id-depends-on-encoding:"+name,
+			fmt.Sprintf("%s same_block=true same_hash=true accepted_by_validateBlock=true parts_header_wire=%d:%s parts_header_reencoded=%d:%s commit_for_wire_id_verifies=true block_sync_verifycommit_err=%q",
+				desc, idWire.PartsHeader.Total, vfbShort(idWire.PartsHeader.Hash), idRe.PartsHeader.Total, vfbShort(idRe.PartsHeader.Hash), vfbErrText(errSync)))
+	} else {
+		o.Stat(fmt.Sprintf("malleable:%s:verify wire=%v sync=%v", name, errWire == nil, errSync == nil))
+	}
+}
+
 // ---------------------------------------------------------------------------------------------
 
 // vfbReporter limits the number of records per signature so that a frequent (known) signature
@@ -1549,6 +1837,11 @@ func TestVerifC13Block(t *testing.T) {
 			rep.viol(3, "roundtrip:block:marshal-not-deterministic", desc)
 		}
 
+		// ================================================================ (8) wire model differential
+		vfGuard(o, "panic:wire-model-ops", func() string { return desc }, func() {
+			vfbWireModelOps(o, vfFork(r.U64(), 8), block, commit)
+		})
+
 		// ================================================================ (6) independent references
 		vfGuard(o, "panic:reference-checks", func() string { return desc }, func() {
 			vfbReferenceChecks(rep, r, desc, block, pbOrig, state, txs, commit, evidence)
@@ -1728,6 +2021,11 @@ func TestVerifC13Block(t *testing.T) {
 				o.Stat("f8:" + field + ":warm-rejects")
 			}
 		}
+
+		// ================================================================ (9) encoding malleability
+		vfGuard(o, "panic:encoding-malleability", func() string { return desc }, func() {
+			vfbEncodingMalleability(rep, vfFork(mseed, 9), desc, chainID, block, bzOrig, state, vals, keyMap, evpool, store)
+		})
 
 		// ================================================================ (4) wire round trips
 		vfGuard(o, "panic:roundtrip", func() string { return desc }, func() {
